@@ -176,7 +176,7 @@ def _gettext_alias(
 
 def _make_new_gettext(func: t.Callable[[str], str]) -> t.Callable[..., str]:
     @pass_context
-    def gettext(__context: Context, __string: str, **variables: t.Any) -> str:
+    def gettext(__context: Context, __string: str, /, **variables: t.Any) -> str:
         rv = __context.call(func, __string)
         if __context.eval_ctx.autoescape:
             rv = Markup(rv)
@@ -195,6 +195,7 @@ def _make_new_ngettext(func: t.Callable[[str, str, int], str]) -> t.Callable[...
         __singular: str,
         __plural: str,
         __num: int,
+        /,
         **variables: t.Any,
     ) -> str:
         variables.setdefault("num", __num)
@@ -210,7 +211,7 @@ def _make_new_ngettext(func: t.Callable[[str, str, int], str]) -> t.Callable[...
 def _make_new_pgettext(func: t.Callable[[str, str], str]) -> t.Callable[..., str]:
     @pass_context
     def pgettext(
-        __context: Context, __string_ctx: str, __string: str, **variables: t.Any
+        __context: Context, __string_ctx: str, __string: str, /, **variables: t.Any
     ) -> str:
         variables.setdefault("context", __string_ctx)
         rv = __context.call(func, __string_ctx, __string)
@@ -234,6 +235,7 @@ def _make_new_npgettext(
         __singular: str,
         __plural: str,
         __num: int,
+        /,
         **variables: t.Any,
     ) -> str:
         variables.setdefault("context", __string_ctx)
